@@ -122,6 +122,13 @@ def natural_matrix(ctx):
              then_set=dict(dt_max=100.0, solve_time=12.0)),
         dict(first=dict(dev="bar", dt_init=2.0 ** -6, dt_max=2.0 ** -6, window=3, solve_time=0.2, k=50),       # quiet first run
              then_set=dict(dt_max=0.5, solve_time=3.0)),
+        # movie settings: save_every smaller than adaptive_window (the window is the literal asked for, whatever the
+        # options object says afterwards); then the same options object re-used with a larger save_every
+        dict(dev="bar", dt_init=0.25, dt_max=100.0, window=10, current=20.0, field=1.0, solve_time=12.0, retries=10, k=2),
+        dict(dev="barhole", dt_init=2.0 ** -6, dt_max=0.5, window=5, current=12.0, field=1.0, solve_time=1.5, retries=10,
+             multiplier=0.5, k=1),
+        dict(first=dict(dev="bar", dt_init=0.25, dt_max=100.0, window=5, current=20.0, field=1.0, solve_time=8.0, retries=10, k=3),
+             then_set=dict(save_every=50, solve_time=10.0)),
         # seeded runs (seed_solution=): the seed supplies the state, not the step control; its last dt differs from dt_init
         dict(dev="bar", adaptive=False, dt_init=2.0 ** -6, current=3.0, field=0.3, solve_time=0.2, k=50,
              seed=dict(dt_init=2.0 ** -5, solve_time=0.15)),                                   # fixed step, seed's dt larger
@@ -198,6 +205,12 @@ def _run(ctx):
     if not (sum(s["refusals"] for s in st) > 50 and "euler" in raised and sum(s["rule_steps"] for s in st) > 50
             and any(s["max_retries_in_a_step"] >= 3 for s in st)):
         raise core.MachineryFailure(f"natural runs did not exercise retries / the rule / exhaustion: {st} {raised}")
+    movie = [t for t in ntraces if t["params"].get("adaptive", True) and t["params"].get("k", 5) < t["params"].get("window", 3)]
+    if not (sum(1 for t in movie if t["stats"]["updates"] > 2 * t["params"]["window"] and t["stats"]["unclipped_rule_steps"] >= 10) >= 2
+            and {t["params"]["k"] for t in movie} >= {1, 2, 3} and {t["params"]["window"] for t in movie} >= {5, 10}
+            and any("second run" in t["params"].get("history", "") and t["params"].get("save_every") == 50 and t["params"]["window"] == 5
+                    and t["stats"]["unclipped_rule_steps"] >= 10 for t in ntraces)):
+        raise core.MachineryFailure(f"no adaptive runs with save_every < adaptive_window judged against the requested window: {[t['stats'] for t in movie]}")
     sd = [t for t in ntraces if t["params"].get("seed") is not None]
     if not all(any(t["params"].get("adaptive", True) == a and t["stats"]["seed_last_dt"] is not None
                    and (t["stats"]["seed_last_dt"] > t["params"]["dt_init"]) == bigger and t["stats"]["updates"] > 5 for t in sd)
